@@ -17,7 +17,7 @@ import numpy as np
 from nssverif import par, tlc, tlaval
 from nssverif.kit import PropertyRun
 
-CHEAP_LONG = {"RegionGeom.throw", "RegionGeom.__call__", "Spectra.__call__", "Taus.tau_energy", "Taus.tau_exit_prob",
+CHEAP_LONG = {"Taus.tau_exit_prob[table 1]", "RegionGeom.throw", "RegionGeom.__call__", "Spectra.__call__", "Taus.tau_energy", "Taus.tau_exit_prob",
               "Taus.__call__", "grid_cdf_sampler", "vec_1d_interp", "EAS.altDec", "EASRadio.__call__"}
 
 
@@ -62,6 +62,9 @@ def _stage_job(job):
                        "_m": {"stage": name, "len": len(idx), "ids_head": [int(i) for i in idx[:8]], "error": err, "plots_requested": bool(plot),
                               "intact": bool(intact)}})
 
+    # the FIRST call on the fresh object sees the whole pool: whatever an object sets up lazily on first use (interpolators built before a
+    # table is floored, caches) must answer like every later call
+    do(list(range(st.n)))
     for h in hists:
         # ids 1..3 of the TLC history -> three distinct pool events (the first pool entries are boundary classes)
         pick = rng.choice(st.n, size=3, replace=False)
